@@ -219,6 +219,7 @@ class BridgeRun:
         self.ntag = 0
         self.after_stop = False
         self.stop_task = None
+        self._old_loops: list = []
 
     def log(self, **e):
         self.ev.append(e)
@@ -278,12 +279,30 @@ class BridgeRun:
                         self.warn_n += 1
                 warnings.showwarning = show
                 try:
-                    self.loop.run_until_complete(self._main())
+                    # {"do": "newloop"} ends the program's first asyncio.run() and begins another: the same bridge object, stopped
+                    # by then, is used again under a different event loop ("close": the old loop is closed first, as run() does)
+                    segs: list[list[dict]] = [[]]
+                    for st in self.scn["steps"]:
+                        if st["do"] == "newloop":
+                            segs.append([st])
+                        else:
+                            segs[-1].append(st)
+                    for n, seg in enumerate(segs):
+                        if n > 0:
+                            if seg[0].get("close", True):
+                                self.loop.close()
+                            else:
+                                self._old_loops.append(self.loop)
+                            self.loop = vnet.VLoop(self.net, vtime=True)
+                            seg = seg[1:]
+                        self.loop.run_until_complete(self._main(seg, n == 0))
                 finally:
                     warnings.showwarning = old
         finally:
             lg.removeHandler(h)
-            self.loop.close()
+            for lp in self._old_loops + [self.loop]:
+                if not lp.is_closed():
+                    lp.close()
         return self.ev
 
     def obs(self, bridge, ports):
@@ -294,23 +313,24 @@ class BridgeRun:
             bindable = [p for p in ports if p not in self.net.udp and p not in self.net.occupied and 0 <= p <= 65535]
             self.log(ev="Obs", br=k + 1, running=bool(b.is_running), listening=listening, bindable=bindable)
 
-    async def _main(self):
+    async def _main(self, steps=None, first=True):
         from aioswitcher.bridge import SwitcherBridge
         scn = self.scn
         ports = list(scn["ports"])
-        self.log(ev="Types", known=live_types())
-        shape = scn.get("cb", scn.get("tid", 0))
-        bridge = SwitcherBridge(callback_shape(shape, self.on_device), ports)
-        self.bridges = [bridge]
-        self.owned: list[set] = [set()]
-        self.log(ev="New", br=1, ports=ports)
-        if "ports2" in scn:
-            self.bridges.append(SwitcherBridge(callback_shape(shape + 2, self.on_device2), list(scn["ports2"])))
-            self.owned.append(set())
-            self.log(ev="New", br=2, ports=list(scn["ports2"]))
         allports = sorted(set(ports) | set(scn.get("ports2", [])) | set(scn.get("extra_ports", [])))
-        self.obs(bridge, allports)
-        for st in scn["steps"]:
+        if first:
+            self.log(ev="Types", known=live_types())
+            shape = scn.get("cb", scn.get("tid", 0))
+            bridge = SwitcherBridge(callback_shape(shape, self.on_device), ports)
+            self.bridges = [bridge]
+            self.owned: list[set] = [set()]
+            self.log(ev="New", br=1, ports=ports)
+            if "ports2" in scn:
+                self.bridges.append(SwitcherBridge(callback_shape(shape + 2, self.on_device2), list(scn["ports2"])))
+                self.owned.append(set())
+                self.log(ev="New", br=2, ports=list(scn["ports2"]))
+            self.obs(bridge, allports)
+        for st in (scn["steps"] if steps is None else steps):
             do = st["do"]
             br = st.get("br", 1)
             bridge = self.bridges[br - 1]
